@@ -3,7 +3,7 @@
 
     c20.murmur       seed hex            -> decimal | err:…                  (Model.Bloom.murmurHash3)
     c20.spec.murmur  seed hex            -> decimal                          (Spec.Bloom.murmur3)
-    c20.ctor         xn xd yn yd         -> "size k"                         (Model sizing, x = xn/xd, y = yn/yd)
+    c20.ctor         xspec yspec         -> "size k" | err:…                 (Model.Bloom.create; spec = r:<num>:<den> | e:<family>)
     c20.hist         init ops            -> one token per op, ','-joined     (Model)
     c20.spec.hist    init ops            -> same, computed on the set-of-bit-indices Spec
 
@@ -163,6 +163,14 @@ def mkRat? (n d : String) : Option Rat := do
   let d ← parseNat? d
   if d = 0 then none else pure ((n : Rat) / (d : Rat))
 
+/-- `r:<num>:<den>` a value, `e:valueerr` | `e:py:<Class>` the float expression raises -/
+def parseFloatSpec? (s : String) : Option (Res Rat) :=
+  match s.splitOn ":" with
+  | ["r", n, d] => (mkRat? n d).map .ok
+  | ["e", "valueerr"] => some (.error .valueerr)
+  | ["e", "py", cls] => some (.error (.py cls))
+  | _ => none
+
 def handle (op : String) (args : List String) : Option String :=
   match op, args with
   | "c20.murmur", [seed, d] => some <| match parseNat? seed, parseHex? d with
@@ -171,8 +179,10 @@ def handle (op : String) (args : List String) : Option String :=
   | "c20.spec.murmur", [seed, d] => some <| match parseNat? seed, parseHex? d with
       | some s, some d => if s < 2 ^ 32 then toString (Spec.Bloom.murmur3 (UInt32.ofNat s) d).toNat else badArgs
       | _, _ => badArgs
-  | "c20.ctor", [xn, xd, yn, yd] => some <| match mkRat? xn xd, mkRat? yn yd with
-      | some x, some y => s!"{Model.Bloom.sizeBytes x} {Model.Bloom.hashFuncs y}"
+  | "c20.ctor", [xs, ys] => some <| match parseFloatSpec? xs, parseFloatSpec? ys with
+      | some x, some y =>
+          Res.render ((Model.Bloom.create x (fun _ => y) 0 0).map
+            (fun f => s!"{f.vData.length} {f.nHashFuncs}"))
       | _, _ => badArgs
   | "c20.hist", [init, ops] => some <|
       match modelInit? init, (splitList ops ',').mapM parseOp? with
